@@ -26,15 +26,18 @@ CONSTANTS Threads, ProgChoices,    \* ProgChoices[t]: the set of programs thread
           Emit,
           Dev_NoRecheck, Dev_CheckOutsideLock, Dev_UserCloseNoFlag, Dev_EchoNoFlag
 
-VARIABLES prog,      \* prog[t]: the program chosen for thread t
+VARIABLES echoed, connected,   \* client only: the one-shot echo gate (_closeEchoed) and "state is CONNECTED"
+          prog,      \* prog[t]: the program chosen for thread t
           ip,        \* ip[t]: index of the call thread t is in
           st,        \* st[t]: "idle" | "checked" (data send passed its check, hand-over pending) | "flagged" (sendClose set the flag)
+                     \*        | "echoed" (client: echo handed over, state change pending)
           closeSent, gone, wire, script
-vars == <<prog, ip, st, closeSent, gone, wire, script>>
+vars == <<echoed, connected, prog, ip, st, closeSent, gone, wire, script>>
+cl == <<echoed, connected>>
 
 Init == /\ prog \in [Threads -> UNION {ProgChoices[t] : t \in Threads}] /\ \A t \in Threads : prog[t] \in ProgChoices[t]
         /\ ip = [t \in Threads |-> 1] /\ st = [t \in Threads |-> "idle"]
-        /\ closeSent = FALSE /\ gone = FALSE /\ wire = <<>> /\ script = <<>>
+        /\ closeSent = FALSE /\ gone = FALSE /\ wire = <<>> /\ script = <<>> /\ echoed = FALSE /\ connected = TRUE
 
 Call(t) == prog[t][ip[t]]
 Active(t) == ip[t] <= Len(prog[t])
@@ -46,38 +49,47 @@ Kind(c) == IF c = "P" THEN "ctl" ELSE "data"
 
 \* sendText / sendBinary / sendPing: check and hand-over in one critical section
 SendAtomic(t) == /\ Active(t) /\ IsSend(Call(t)) /\ st[t] = "idle" /\ ~Dev_CheckOutsideLock
-                 /\ IF closeSent /\ ~Dev_NoRecheck THEN wire' = wire ELSE Emitw(Kind(Call(t)))
-                 /\ Done(t) /\ Log(t) /\ UNCHANGED <<closeSent, gone>>
+                 /\ IF (closeSent /\ ~Dev_NoRecheck) \/ (Ep = "c" /\ ~connected) THEN wire' = wire ELSE Emitw(Kind(Call(t)))
+                 /\ Done(t) /\ Log(t) /\ UNCHANGED <<closeSent, gone>> /\ UNCHANGED cl
 \* deviation: check ...
 SendCheck(t) == /\ Active(t) /\ IsSend(Call(t)) /\ st[t] = "idle" /\ Dev_CheckOutsideLock
-                /\ IF closeSent /\ ~Dev_NoRecheck THEN Done(t) ELSE ip' = ip /\ st' = [st EXCEPT ![t] = "checked"] /\ prog' = prog
-                /\ Log(t) /\ UNCHANGED <<closeSent, gone, wire>>
+                /\ IF (closeSent /\ ~Dev_NoRecheck) \/ (Ep = "c" /\ ~connected) THEN Done(t) ELSE ip' = ip /\ st' = [st EXCEPT ![t] = "checked"] /\ prog' = prog
+                /\ Log(t) /\ UNCHANGED <<closeSent, gone, wire>> /\ UNCHANGED cl
 \* ... and hand-over later
 SendEmit(t) == /\ Active(t) /\ st[t] = "checked"
-               /\ Emitw(Kind(Call(t))) /\ Done(t) /\ UNCHANGED <<closeSent, gone, script>>
+               /\ Emitw(Kind(Call(t))) /\ Done(t) /\ UNCHANGED <<closeSent, gone, script>> /\ UNCHANGED cl
 
 CloseSetFlag(t) == /\ Active(t) /\ Call(t) = "C" /\ st[t] = "idle"
                    /\ closeSent' = (closeSent \/ ~Dev_UserCloseNoFlag)
-                   /\ st' = [st EXCEPT ![t] = "flagged"] /\ Log(t) /\ UNCHANGED <<prog, ip, gone, wire>>
+                   /\ st' = [st EXCEPT ![t] = "flagged"] /\ Log(t) /\ UNCHANGED <<prog, ip, gone, wire>> /\ UNCHANGED cl
 CloseEmit(t) == /\ Active(t) /\ Call(t) = "C" /\ st[t] = "flagged"
-                /\ Emitw("close") /\ Done(t) /\ UNCHANGED <<closeSent, gone, script>>
+                /\ Emitw("close") /\ Done(t) /\ UNCHANGED <<closeSent, gone, script>> /\ UNCHANGED cl
 
-\* the server drops the session after the echo (later reads and sends find nothing); the client only becomes CLOSED
+\* the server echoes unless it already sent a close and drops the session (later reads and sends find nothing); the
+\* client echoes the first close it receives (one-shot gate) and, in a second step, becomes CLOSED
 EchoClose(t) == /\ Active(t) /\ Call(t) = "rC" /\ st[t] = "idle"
-                /\ IF closeSent THEN wire' = wire /\ closeSent' = closeSent
-                   ELSE Emitw("close") /\ closeSent' = ~Dev_EchoNoFlag
-                /\ gone' = (gone \/ Ep = "s")
-                /\ Done(t) /\ Log(t)
+                /\ IF Ep = "s"
+                   THEN /\ IF closeSent THEN wire' = wire /\ closeSent' = closeSent
+                           ELSE Emitw("close") /\ closeSent' = ~Dev_EchoNoFlag
+                        /\ gone' = TRUE /\ UNCHANGED cl /\ Done(t)
+                   ELSE /\ IF echoed THEN wire' = wire /\ closeSent' = closeSent
+                           ELSE Emitw("close") /\ closeSent' = (closeSent \/ ~Dev_EchoNoFlag)
+                        /\ echoed' = TRUE /\ connected' = connected /\ gone' = gone
+                        /\ st' = [st EXCEPT ![t] = "echoed"] /\ UNCHANGED <<ip, prog>>
+                /\ Log(t)
+EchoSetClosed(t) == /\ Active(t) /\ Call(t) = "rC" /\ st[t] = "echoed"
+                    /\ connected' = FALSE /\ Done(t) /\ UNCHANGED <<echoed, closeSent, gone, wire, script>>
 \* inbound ping: answered with a pong (a control frame, allowed after a close frame) while the session exists
 InPing(t) == /\ Active(t) /\ Call(t) = "rP" /\ st[t] = "idle"
-             /\ Emitw("ctl") /\ Done(t) /\ Log(t) /\ UNCHANGED <<closeSent, gone>>
+             /\ Emitw("ctl") /\ Done(t) /\ Log(t) /\ UNCHANGED <<closeSent, gone>> /\ UNCHANGED cl
 
+\* disconnect(): a courtesy close frame while CONNECTED, then the transport is gone
 Disconnect(t) == /\ Active(t) /\ Call(t) = "D" /\ st[t] = "idle"
-                 /\ (IF closeSent THEN wire' = wire ELSE Emitw("close"))
-                 /\ closeSent' = TRUE /\ gone' = TRUE
+                 /\ (IF connected /\ ~gone THEN Emitw("close") ELSE wire' = wire)
+                 /\ closeSent' = TRUE /\ gone' = TRUE /\ connected' = FALSE /\ echoed' = echoed
                  /\ Done(t) /\ Log(t)
 
-Next == \E t \in Threads : SendAtomic(t) \/ SendCheck(t) \/ SendEmit(t) \/ CloseSetFlag(t) \/ CloseEmit(t) \/ EchoClose(t) \/ InPing(t) \/ Disconnect(t)
+Next == \E t \in Threads : SendAtomic(t) \/ SendCheck(t) \/ SendEmit(t) \/ CloseSetFlag(t) \/ CloseEmit(t) \/ EchoClose(t) \/ EchoSetClosed(t) \/ InPing(t) \/ Disconnect(t)
 Spec == Init /\ [][Next]_vars
 
 NoDataAfterClose == \A i, j \in 1..Len(wire) : (i < j /\ wire[i] = "close") => wire[j] # "data"
